@@ -20,6 +20,7 @@ import (
 	"strconv"
 	"strings"
 	"sync"
+	"sync/atomic"
 	"time"
 )
 
@@ -36,6 +37,38 @@ var vfC14Stmts = []vfC14Stmt{
 	{"A", "SELECT v FROM vfa WHERE k = ?", 1, 1},
 	{"B", "SELECT v, w FROM vfb WHERE k = ? AND c = ?", 2, 2},
 	{"C", "SELECT v, w, x FROM vfc WHERE k = ?", 1, 3},
+	// A family of DISTINCT statements whose texts nearly collide: to the server (and to the property) each is a
+	// statement of its own; any normalisation of the text in the cache key (white space, case, trailing
+	// characters, quoting, comments) makes two of them share an entry.
+	{"D1", "SELECT v FROM vfa WHERE k = ? AND t = 'x y'", 1, 1},
+	{"D2", "SELECT v FROM vfa WHERE k = ? AND t = 'x  y'", 1, 1},  // white space run inside a literal
+	{"D3", "SELECT v FROM vfa WHERE k = ? AND t = 'x\ty'", 1, 1},  // tab inside a literal
+	{"E1", "select v from vfa where k = ?", 1, 1},                 // case
+	{"F1", "SELECT v FROM vfa WHERE k = ?;", 1, 1},                // trailing semicolon
+	{"F2", "SELECT v FROM vfa WHERE k = ? ", 1, 1},                // trailing space
+	{"F3", "SELECT  v FROM vfa WHERE k = ?", 1, 1},                // white space run between tokens
+	{"G1", "SELECT v FROM \"vfa\" WHERE k = ?", 1, 1},             // quoted identifier
+	{"G2", "SELECT v FROM \"Vfa\" WHERE k = ?", 1, 1},             // quoted identifier, other case
+	{"G3", "SELECT v FROM \"vf a\" WHERE k = ?", 1, 1},            // white space inside a quoted identifier
+	{"G4", "SELECT v FROM \"vf  a\" WHERE k = ?", 1, 1},
+	{"H1", "SELECT v FROM vfa WHERE k = ? /* one */", 1, 1},       // comments
+	{"H2", "SELECT v FROM vfa WHERE k = ? /* two */", 1, 1},
+}
+
+// vfC14Family are the names of the near-colliding statements (with A, which they resemble).
+var vfC14Family = []string{"A", "D1", "D2", "D3", "E1", "F1", "F2", "F3", "G1", "G2", "G3", "G4", "H1", "H2"}
+
+// Fresh statements for the burst driver: "Z<n>" <-> "SELECT v FROM vfz<n> WHERE k = ?".
+var vfC14Fresh sync.Map // name -> *vfC14Stmt
+
+func vfC14FreshStmt(n int) *vfC14Stmt {
+	name := fmt.Sprintf("Z%d", n)
+	if v, ok := vfC14Fresh.Load(name); ok {
+		return v.(*vfC14Stmt)
+	}
+	st := &vfC14Stmt{name, fmt.Sprintf("SELECT v FROM vfz%d WHERE k = ?", n), 1, 1}
+	v, _ := vfC14Fresh.LoadOrStore(name, st)
+	return v.(*vfC14Stmt)
 }
 
 func vfC14StmtByName(n string) *vfC14Stmt {
@@ -44,13 +77,23 @@ func vfC14StmtByName(n string) *vfC14Stmt {
 			return &vfC14Stmts[i]
 		}
 	}
+	if v, ok := vfC14Fresh.Load(n); ok {
+		return v.(*vfC14Stmt)
+	}
 	return nil
 }
 
+// vfC14StmtByText: the text must match EXACTLY (every byte).
 func vfC14StmtByText(t string) *vfC14Stmt {
 	for i := range vfC14Stmts {
 		if vfC14Stmts[i].Text == t {
 			return &vfC14Stmts[i]
+		}
+	}
+	var n int
+	if _, err := fmt.Sscanf(t, "SELECT v FROM vfz%d WHERE k = ?", &n); err == nil {
+		if st := vfC14FreshStmt(n); st.Text == t {
+			return st
 		}
 	}
 	return nil
@@ -242,25 +285,35 @@ func (env *vfC14Env) wireOfConn(c *Conn) int {
 // parseKey splits the cache's key string into the triple. The code concatenates host id (a
 // 36-character UUID string), keyspace and statement.
 func (env *vfC14Env) parseKey(s string) (vfC14Key, bool) {
-	// tolerant of separators / ordering: the three components must each occur, and only one of each
-	var hs, kss, sts []string
-	for hid, h := range env.hidOf {
-		if strings.Contains(s, hid) {
-			hs = append(hs, h)
+	// host id and keyspace may come in any order and with separators; what remains must be EXACTLY the text of
+	// one statement (white space, case, trailing characters included)
+	var h, ks string
+	for hid, hn := range env.hidOf {
+		if i := strings.Index(s, hid); i >= 0 {
+			if h != "" {
+				return vfC14NoKey, false
+			}
+			h = hn
+			s = s[:i] + "\x00" + s[i+len(hid):]
 		}
 	}
-	for _, ks := range []string{"ks1", "ks2"} {
-		if strings.Contains(s, ks) {
-			kss = append(kss, ks)
+	if h == "" {
+		return vfC14NoKey, false
+	}
+	const seps = "\x00|:/,"
+	s = strings.TrimLeft(s, seps)
+	for _, k := range []string{"ks1", "ks2"} {
+		if strings.HasPrefix(s, k) {
+			ks, s = k, s[len(k):]
+			break
 		}
 	}
-	for i := range vfC14Stmts {
-		if strings.Contains(s, vfC14Stmts[i].Text) {
-			sts = append(sts, vfC14Stmts[i].Name)
-		}
+	if ks == "" {
+		return vfC14NoKey, false
 	}
-	if len(hs) == 1 && len(kss) == 1 && len(sts) == 1 {
-		return vfC14Key{hs[0], kss[0], sts[0]}, true
+	s = strings.Trim(s, seps)
+	if st := vfC14StmtByText(s); st != nil {
+		return vfC14Key{h, ks, st.Name}, true
 	}
 	return vfC14NoKey, false
 }
@@ -708,6 +761,9 @@ type vfC14ExecSpec struct {
 	Conn   []string    `json:"conn"` // pinned (host, keyspace), or empty
 	TokLast bool       `json:"toklast"` // batches: the unprepared token entry comes last instead of first
 	Cancel time.Duration `json:"-"`  // > 0: cancel the context after this delay
+	// burst driver: the executor announces itself (ready++) and spins until *spin != 0, so that several start together
+	spin  *int32
+	ready *int32
 }
 
 func vfC14Classify(err error) string {
@@ -769,6 +825,14 @@ func (env *vfC14Env) runExec(sp vfC14ExecSpec) {
 		})
 		defer t.Stop()
 	}
+	if sp.spin != nil {
+		atomic.AddInt32(sp.ready, 1)
+		for i := 0; atomic.LoadInt32(sp.spin) == 0; i++ {
+			if i&0xfff == 0xfff {
+				runtime.Gosched()
+			}
+		}
+	}
 	cls, meta, detail := env.execute(ctx, sp)
 	if cls == "ctx" && ctx.Err() == nil {
 		// not the caller's context: the PREPARE runs on the connection's context, which ends when the connection dies
@@ -823,6 +887,18 @@ func (env *vfC14Env) execute(ctx context.Context, sp vfC14ExecSpec) (cls string,
 			env.tr.Emit("e_bound", "e", sp.E, "s", it.S, "id", id.json(), "idok", ok, "nargs", len(qi.Args))
 			return args, nil
 		}
+	}
+	if sp.Kind == "prepare" {
+		// straight into the single-flight PREPARE (what executeQuery / executeBatch call first)
+		if pin == nil {
+			return "closed", meta, "prepare needs a pinned connection"
+		}
+		info, err := pin.prepareStatement(ctx, vfC14StmtByName(sp.Items[0].S).Text, nil)
+		if err != nil {
+			return vfC14Classify(err), meta, err.Error()
+		}
+		meta, _ = vfC14ParseID(info.id)
+		return "prepared", meta, ""
 	}
 	if sp.Kind == "batch" {
 		b := env.sess.NewBatch(LoggedBatch).WithContext(ctx)
